@@ -6,6 +6,7 @@ pub mod c03;
 pub mod c04;
 pub mod c04a;
 pub mod c05;
+pub mod c06;
 pub mod c07;
 pub mod c07b;
 pub mod c08;
@@ -24,6 +25,7 @@ pub fn run(id: &str, tier: Tier, seed: u64, replay: Option<Value>) -> i32 {
         "C03" => hist::run(&c03::spec(), tier, seed, replay),
         "C04" => hist::run(&c04::spec(), tier, seed, replay),
         "C05" => c05::run(tier, seed, replay),
+        "C06" => c06::run(tier, seed, replay),
         "C07" => hist::run(&c07::spec(), tier, seed, replay),
         "C08" => hist::run(&c08::spec(), tier, seed, replay),
         "C15" => hist::run(&c15::spec(), tier, seed, replay),
